@@ -77,13 +77,13 @@ impl GenCfg {
         }
     }
 
-    /// alphabet for file-system globs: {a, b, ., /, *, ?, **, [!a], {,}, <:1,2>}
+    /// alphabet for file-system globs: {a, b, .a, /, *, ?, **, [!a], {,}, <:1,2>, <>}
     pub fn fsglobs() -> GenCfg {
         GenCfg {
             leaves: vec![
                 lit("a"),
                 lit("b"),
-                lit("."),
+                lit(".a"),
                 Kind::Sep,
                 Kind::One,
                 Kind::Zom(false),
